@@ -230,6 +230,30 @@ fn cmd_xid(arg: &str) -> String {
 }
 
 /// Same digest as the oracle's `xidtable`, over the `unicode-xid` tables (`_` counted as start).
+/// The hypotheses `Sane` of the Lean round-trip theorem, checked on the tables the parser really uses.
+fn cmd_sanetable() -> String {
+    use unicode_xid::UnicodeXID as _;
+    for u in 0..=0x10FFFFu32 {
+        let Some(c) = char::from_u32(u) else { continue };
+        let (start, cont, ws, digit) = (c.is_xid_start(), c.is_xid_continue(), c.is_whitespace(), c.is_ascii_digit());
+        if digit && (start || c == '_' || ws) {
+            return format!("bad digit_plain U+{u:04X}");
+        }
+        if ws && (cont || start || digit || c == '_' || c == ':' || c == '{' || c == '}') {
+            return format!("bad ws_plain U+{u:04X}");
+        }
+        if start && (c == '{' || c == '}') {
+            return format!("bad start_plain U+{u:04X}");
+        }
+    }
+    for c in ['{', '}'] {
+        if c.is_xid_continue() || c.is_xid_start() || c.is_whitespace() {
+            return format!("bad brace_plain {c}");
+        }
+    }
+    "ok".into()
+}
+
 fn cmd_xidtable() -> String {
     use unicode_xid::UnicodeXID as _;
     let mut out = String::new();
@@ -293,6 +317,7 @@ fn handle(line: &str) -> String {
         "case" => cmd_case(rest.trim()),
         "lower" => hex_decode(rest.trim()).map(|s| hex_encode(&s.to_lowercase())).unwrap_or_else(|| "bad-op".into()),
         "xidtable" => cmd_xidtable(),
+        "sanetable" => cmd_sanetable(),
         _ => "bad-op".into(),
     }
 }
